@@ -459,6 +459,11 @@ func binop(op token.Token, a, b Val, ctx string) Val {
 		evalFail("float op %s in %s", op, ctx)
 	}
 	if sa, ok := a.(Str); ok {
+		if sb, ok := b.(Str); ok {
+			if c, ok := strOrder(op, sa, sb); ok {
+				return Bool{c}
+			}
+		}
 		if sb, ok := b.(Str); ok && op == token.ADD {
 			_ = sa
 			_ = sb
